@@ -245,6 +245,14 @@ def run_correspondence(ctx, ncases, tag, cfg_filter=None):
 
 
 # ----------------------------------------------------------------------------- reference test (oracle)
+def _safe_exp(x):
+    """exp for the reference relative interval: NaN stays NaN, overflow is +inf (the interval is then not compared)."""
+    try:
+        return math.exp(x)
+    except OverflowError:
+        return math.inf
+
+
 def reference_test(xs, ys, alt, equal_var, use_t, cl):
     """Textbook two-sample test from raw observations with numpy/scipy, written independently of tea-tasting."""
     import numpy as np
@@ -264,22 +272,23 @@ def reference_test(xs, ys, alt, equal_var, use_t, cl):
     d = st.t(df) if use_t else st.norm()
     t = (my - mx) / se
     out = {"control": mx, "treatment": my, "effect_size": my - mx, "statistic": t, "rel_effect_size": my / mx - 1}
-    lse, ldf = se_df(vx / mx ** 2, vy / my ** 2)
+    with np.errstate(divide="ignore", invalid="ignore"):
+        lse, ldf = se_df(vx / mx ** 2, vy / my ** 2)
     ld = st.t(ldf) if use_t else st.norm()
     lr = math.log(my / mx) if my / mx > 0 else float("nan")
     if alt == "two-sided":
         z, zl = d.ppf((1 + cl) / 2), ld.ppf((1 + cl) / 2)
         out.update(pvalue=2 * d.sf(abs(t)),
                    effect_size_ci_lower=my - mx - z * se, effect_size_ci_upper=my - mx + z * se,
-                   rel_effect_size_ci_lower=math.exp(lr - zl * lse) - 1, rel_effect_size_ci_upper=math.exp(lr + zl * lse) - 1)
+                   rel_effect_size_ci_lower=_safe_exp(lr - zl * lse) - 1, rel_effect_size_ci_upper=_safe_exp(lr + zl * lse) - 1)
     elif alt == "greater":
         z, zl = d.ppf(cl), ld.ppf(cl)
         out.update(pvalue=d.sf(t), effect_size_ci_lower=my - mx - z * se, effect_size_ci_upper=math.inf,
-                   rel_effect_size_ci_lower=math.exp(lr - zl * lse) - 1, rel_effect_size_ci_upper=math.inf)
+                   rel_effect_size_ci_lower=_safe_exp(lr - zl * lse) - 1, rel_effect_size_ci_upper=math.inf)
     else:
         z, zl = d.ppf(cl), ld.ppf(cl)
         out.update(pvalue=d.cdf(t), effect_size_ci_lower=-math.inf, effect_size_ci_upper=my - mx + z * se,
-                   rel_effect_size_ci_lower=-math.inf, rel_effect_size_ci_upper=math.exp(lr + zl * lse) - 1)
+                   rel_effect_size_ci_lower=-math.inf, rel_effect_size_ci_upper=_safe_exp(lr + zl * lse) - 1)
     return out
 
 
@@ -298,6 +307,9 @@ def compare_result(res, ref, rtol=1e-7, skip_rel_ci=False):
             continue
         g, w = float(getattr(res, f)), float(ref[f])
         if math.isnan(w):
+            continue
+        if math.isnan(g):            # a finite reference value but NaN from the code
+            bad.append((f, g, w))
             continue
         if math.isinf(w) or math.isinf(g):
             if g != w:
